@@ -1,6 +1,4 @@
 package main
 
-func genObjFsm(coreDir string)  {}
 func genConsts(coreDir string)  {}
-func genSurface(coreDir string) {}
 func genSites()                 {}
